@@ -1,4 +1,5 @@
 import EvyV.Props.EvalCore
+import EvyV.Props.Frame
 /-
 C10 — lexical scoping and structured control flow.
 -/
@@ -183,5 +184,14 @@ theorem zero_step_panics (n : Nat) (st st1 : St F) (lv : Option Str) (ty : Ty) (
     (hz : ops.eq z ops.zero = true) :
     execS ops ext prog (n + 1) (.forS lv ty (.step (some a) b (some c)) body) st = .err (.panic .rangeValue) (popScope s3) := by
   simp [execS, ht, ha, hb, hc, hz]
+
+/-- **whole programs** (Props/Frame.lean, by induction over the step budget for all functions of the
+interpreter): any statement list — whatever it contains, however it ends (normally, break, return,
+panic, stop) — leaves the scope stack as deep as it found it -/
+theorem every_scope_is_popped (n : Nat) (b : List (Stmt F)) (st : St F) :
+    (execStmts ops ext prog n b st).st.locals.length = st.locals.length := scopes_balanced ops ext prog n b st
+
+theorem every_scope_is_popped_expr (n : Nat) (e : Expr F) (st : St F) :
+    (evalE ops ext prog n e st).st.locals.length = st.locals.length := scopes_balanced_expr ops ext prog n e st
 
 end EvyV.C10
